@@ -312,6 +312,11 @@ class DataflowAnalysisAttacher(Transformer):
 
         return self.visit_Node(o, defines_symbols=defines, uses_symbols=uses, **kwargs)
 
+    def visit_PrintStmt(self, o, **kwargs):
+        # The output items of a PRINT statement are read
+        uses = self._symbols_from_expr(tuple(v for v in o.values if not isinstance(v, str)))
+        return self.visit_Node(o, uses_symbols=uses, **kwargs)
+
     def visit_Allocation(self, o, **kwargs):
         arrays = [v for v in FindVariables().visit(o.variables) if isinstance(v, Array)]
         dims = OrderedSet(v for a in arrays for v in FindVariables().visit(a.dimensions))
